@@ -616,6 +616,28 @@ def _sx_urljoin(base, url, *a, **k):
         return url
     if not url:
         return base
+    if isinstance(base, str) and isinstance(url, SymStr):
+        # A reference whose symbolic characters are none of the characters URL syntax gives a meaning to (and no
+        # white space / control, which urlsplit strips) is treated by urljoin character by character: join with
+        # unique private-use placeholders and put the symbolic characters back.
+        from .core import eng
+        from .mask import Mask
+        special = Mask.of(':/?#.\\@[]%;=&').union(Mask.rng(0, 0x20)).union(Mask.rng(0x7f, 0xa0)).union(Mask.rng(0xE000, 0xF8FF))
+        e = eng()
+        back = {}
+        chars = []
+        for i, c in enumerate(url.ch):
+            if isinstance(c, int):
+                if 0xE000 <= c <= 0xF8FF:
+                    raise Unsupported('urljoin on symbolic URL with a non-empty base')
+                chars.append(chr(c))
+            else:
+                if e.branch(special.formula(c)):
+                    raise Unsupported('urljoin on symbolic URL with a non-empty base')
+                back[0xE000 + i] = c
+                chars.append(chr(0xE000 + i))
+        res = urllib.parse.urljoin(base, ''.join(chars), *a, **k)
+        return SymStr([back.get(ord(ch), ord(ch)) for ch in res])
     raise Unsupported('urljoin on symbolic URL with a non-empty base')
 
 
